@@ -308,6 +308,7 @@ func (m *Morass) Clear() error {
 	m.files = m.files[:0]
 	m.pos = 0
 	m.len = 0
+	m.fast = false
 	select {
 	case m.chunk = <-m.pool:
 		if m.chunk == nil {
